@@ -71,6 +71,10 @@ pub fn c02(seed: u64, runs: usize, nmax: usize, tw: &mut TraceWriter) -> Cov {
         // update and no periodic announce / gossip
         let feed_regime = run % 5 == 4;
         let n = if feed_regime { pick(&mut r, &[8usize, 9, 10]) } else { r.random_range(2..=nmax) };
+        // one run in twenty: a small cluster observed for 300 probe periods, so that every instance's probe number
+        // (a u8 in the code) wraps around at least once while the zero-false-suspicion clauses are being judged
+        let long = run % 20 == 13;
+        let n = if long { 2 + (run / 20) % 2 } else { n };
         let mut cfg = base_cfg();
         cfg.fanout = r.random_range(1..=4);
         cfg.maxtx = if feed_regime { 1 } else { r.random_range(1..=10) };
@@ -118,7 +122,7 @@ pub fn c02(seed: u64, runs: usize, nmax: usize, tw: &mut TraceWriter) -> Cov {
             form(&mut sim, &mut r, spread);
         }
         let last_join = sim.now;
-        let horizon = last_join + (4 * n as u64 + 10) * p + p;
+        let horizon = last_join + (if long { 300 } else { 4 * n as u64 + 10 }) * p + p;
         sim.run_until(horizon);
         if everyone_lists_everyone(&sim) {
             cov.informative += 1;
@@ -134,6 +138,14 @@ pub fn c02(seed: u64, runs: usize, nmax: usize, tw: &mut TraceWriter) -> Cov {
 /// a deterministic formed cluster: returns the simulator right after everyone lists everyone
 fn formed<'a>(n: usize, cfg: &Cfg, pol: Policy, seed: u64, lat: (u64, u64), run: u64, driver: &str, extra: serde_json::Value,
               tw: &'a mut TraceWriter) -> Option<Sim<'a>> {
+    formed_hist(n, cfg, pol, seed, lat, run, driver, extra, tw, false)
+}
+
+/// `near_max`: before the cluster counts as formed one member refutes a suspicion raised at incarnation MAX-2, so
+/// that it lives at MAX-1 - one refutation away from the point where it "cannot refute any more"
+#[allow(clippy::too_many_arguments)]
+fn formed_hist<'a>(n: usize, cfg: &Cfg, pol: Policy, seed: u64, lat: (u64, u64), run: u64, driver: &str, extra: serde_json::Value,
+                   tw: &'a mut TraceWriter, near_max: bool) -> Option<Sim<'a>> {
     let scfg = SimCfg { n, cfg: cfg.clone(), codec: CodecKind::Hand(Mode::Fixed), handler: HandlerCfg::default(), pol, seed, lat, late: 0 };
     let mut r = SmallRng::seed_from_u64(seed ^ 0x5eed);
     let mut sim = Sim::new(scfg, run, driver, extra, tw);
@@ -150,6 +162,18 @@ fn formed<'a>(n: usize, cfg: &Cfg, pol: Policy, seed: u64, lat: (u64, u64), run:
     // let the join gossip settle for a couple of periods
     let t = sim.now + 2 * cfg.period;
     sim.run_until(t);
+    if near_max {
+        let v = (seed % n as u64) as usize;
+        let a = (v + 1) % n;
+        let vid = sim.id_of(v);
+        sim.call(a, Call::ApplyMany(vec![Member::new(vid, u16::MAX - 2, State::Suspect)], true));
+        let t = sim.now + (n as u64 + 3) * cfg.period;
+        sim.run_until(t);
+        let at_boundary = sim.nodes[v].as_ref().map_or(false, |nd| nd.foca.verif_snapshot().incarnation == u16::MAX - 1);
+        if !at_boundary || !everyone_lists_everyone(&sim) {
+            return None;
+        }
+    }
     let now = sim.now;
     sim.tw.env("formed", now, json!({}));
     Some(sim)
@@ -300,7 +324,13 @@ pub fn c04(seed: u64, thorough: bool, maxruns: u64, nlist: &[usize], tw: &mut Tr
     let mut run = 0u64;
     for &n in sizes {
         // latency regimes: (0) well below rtt/4  (1) round trips between rtt and (period-rtt)/2
-        for regime in 0..2 {
+        // (2) a slow but healthy network: one-way latency above rtt, so that the direct Ack only arrives during the
+        //     indirect stage and a refutation takes more than a probe period to come back; suspect_to_down_after = 4 periods
+        // (3) regime 0 with one member living at incarnation MAX-1 (it can refute exactly once more)
+        for regime in 0..4 {
+            if (regime == 2 && n < 3) || (regime == 3 && n > 4) {
+                continue;
+            }
             for notify in [false, true] {
                 for pol in [Policy::None, Policy::Next] {
                     if !thorough && master.random_range(0..2) == 0 && n > 2 {
@@ -312,8 +342,11 @@ pub fn c04(seed: u64, thorough: bool, maxruns: u64, nlist: &[usize], tw: &mut Tr
                     if master.random_range(0..2) == 0 {
                         cfg.pg = Some((cfg.period, 2));
                     }
-                    let lat = if regime == 0 {
+                    let lat = if regime == 0 || regime == 3 {
                         (0, cfg.rtt / 4 - 1)
+                    } else if regime == 2 {
+                        cfg.s2d = 4 * cfg.period;
+                        (cfg.rtt + 20, cfg.rtt + 150)
                     } else {
                         cfg.period = 3000;
                         // indirect probing runs routinely in this regime; with periodic announce on and packets
@@ -328,7 +361,7 @@ pub fn c04(seed: u64, thorough: bool, maxruns: u64, nlist: &[usize], tw: &mut Tr
                     // reference run: datagram indexes of a window covering a full rotation (2n-1 rounds)
                     let (m0, m1) = {
                         let mut null = TraceWriter::null();
-                        let Some(mut sim) = formed(n, &cfg, pol, cseed, lat, 0, "c04", json!({}), &mut null) else { continue };
+                        let Some(mut sim) = formed_hist(n, &cfg, pol, cseed, lat, 0, "c04", json!({}), &mut null, regime == 3) else { continue };
                         let m0 = sim.mid;
                         let t = sim.now + (2 * n as u64) * cfg.period;
                         sim.run_until(t);
@@ -341,7 +374,7 @@ pub fn c04(seed: u64, thorough: bool, maxruns: u64, nlist: &[usize], tw: &mut Tr
                         if cov.runs >= maxruns {
                             return cov;
                         }
-                        let Some(mut sim) = formed(n, &cfg, pol, cseed, lat, run, "c04", json!({"regime": regime, "drop": d}), tw) else { continue };
+                        let Some(mut sim) = formed_hist(n, &cfg, pol, cseed, lat, run, "c04", json!({"regime": regime, "drop": d}), tw, regime == 3) else { continue };
                         run += 1;
                         sim.drop_mids.insert(m0 + d as u64);
                         let t = sim.now + (2 * n as u64) * cfg.period;
